@@ -462,30 +462,51 @@ theorem liftI_new (a b : RR fl) :
     simp only [Interval.new, RR.gt_iff, h', h, if_false, if_true, liftI]
 
 /-- the lower bound `finishWilson` (the end of `ci_wilson`) hands to `Interval::new`: the rounded
-    `m - s` clamped from below at `0` (`f64::max`), or the far end `0` -/
+    `m - s` clamped from below at `0` (`f64::max`) — and, in the upper one-sided arm, from above at
+    `1` as well (`.min(1.)`) —, or the far end `0` -/
 noncomputable def wLo (fl : ℝ → ℝ) (kd : Kind) (m s : ℝ) : ℝ :=
   match kd with
   | .lower => 0
-  | _ => max (fl (m - s)) 0
+  | .upper => min (max (fl (m - s)) 0) 1
+  | .twoSided => max (fl (m - s)) 0
 /-- the upper bound `finishWilson` hands to `Interval::new`: the rounded `m + s` clamped from
-    above at `1` (`f64::min`), or the far end `1` -/
+    above at `1` (`f64::min`) — and, in the lower one-sided arm, from below at `0` as well —, or the
+    far end `1` -/
 noncomputable def wHi (fl : ℝ → ℝ) (kd : Kind) (m s : ℝ) : ℝ :=
   match kd with
   | .upper => 1
-  | _ => min (fl (m + s)) 1
+  | .lower => max (min (fl (m + s)) 1) 0
+  | .twoSided => min (fl (m + s)) 1
 
 theorem wLo_nonneg (fl : ℝ → ℝ) (kd : Kind) (m s : ℝ) : 0 ≤ wLo fl kd m s := by
-  cases kd <;> simp only [wLo] <;> first | exact le_max_right _ _ | exact le_rfl
+  cases kd <;> simp only [wLo] <;>
+    first | exact le_max_right _ _ | exact le_rfl | exact le_min (le_max_right _ _) zero_le_one
 
 theorem wHi_le_one (fl : ℝ → ℝ) (kd : Kind) (m s : ℝ) : wHi fl kd m s ≤ 1 := by
-  cases kd <;> simp only [wHi] <;> first | exact min_le_right _ _ | exact le_rfl
+  cases kd <;> simp only [wHi] <;>
+    first | exact min_le_right _ _ | exact le_rfl | exact max_le (min_le_right _ _) zero_le_one
 
-/-- clamping is the identity on proportions: for `0 ≤ m - s` and `m + s ≤ 1` the bounds of
+/-- the one-sided arms can no longer be inverted: the finite bound lies in `[0, 1]` and the far end
+    is `1` resp. `0` -/
+theorem wLo_le_wHi_one_sided (fl : ℝ → ℝ) (kd : Kind) (hk : kd ≠ .twoSided) (m s : ℝ) :
+    wLo fl kd m s ≤ wHi fl kd m s := by
+  cases kd
+  · exact absurd rfl hk
+  · simp only [wLo, wHi]; exact min_le_right _ _
+  · simp only [wLo, wHi]; exact le_max_right _ _
+
+/-- clamping is the identity on proportions: for `0 ≤ m - s ≤ 1` and `0 ≤ m + s ≤ 1` the bounds of
     `finishWilson` in exact arithmetic are those of `finish` -/
-theorem wLo_id_eq (kd : Kind) {m s : ℝ} (h : 0 ≤ m - s) : wLo id kd m s = finLo id kd m s := by
-  cases kd <;> simp only [wLo, finLo, id] <;> exact max_eq_left h
-theorem wHi_id_eq (kd : Kind) {m s : ℝ} (h : m + s ≤ 1) : wHi id kd m s = finHi id kd m s := by
-  cases kd <;> simp only [wHi, finHi, id] <;> exact min_eq_left h
+theorem wLo_id_eq (kd : Kind) {m s : ℝ} (h : 0 ≤ m - s) (h1 : m - s ≤ 1) :
+    wLo id kd m s = finLo id kd m s := by
+  cases kd <;> simp only [wLo, finLo, id]
+  · exact max_eq_left h
+  · rw [max_eq_left h, min_eq_left h1]
+theorem wHi_id_eq (kd : Kind) {m s : ℝ} (h : m + s ≤ 1) (h0 : 0 ≤ m + s) :
+    wHi id kd m s = finHi id kd m s := by
+  cases kd <;> simp only [wHi, finHi, id]
+  · exact min_eq_left h
+  · rw [min_eq_left h, max_eq_left h0]
 
 /-- `finishWilson` returns its two (clamped) bounds iff they are ordered, else `InvalidBounds` -/
 theorem finishWilson_eq (conf : Confidence (RR fl)) (m s : RR fl) :
@@ -631,10 +652,14 @@ theorem wfin_close (hfl : ∀ x, |fl x - x| ≤ u * |x|) (hu0 : 0 ≤ u) (hu : u
     (abs_max_zero_sub_le _ _).trans h1
   have g2 : |min (fl (c' + s')) 1 - min (id (c + s)) 1| ≤ 8 * u :=
     (abs_min_one_sub_le _ _).trans h2
+  have g1' : |min (max (fl (c' - s')) 0) 1 - min (max (id (c - s)) 0) 1| ≤ 8 * u :=
+    (abs_min_one_sub_le _ _).trans g1
+  have g2' : |max (min (fl (c' + s')) 1) 0 - max (min (id (c + s)) 1) 0| ≤ 8 * u :=
+    (abs_max_zero_sub_le _ _).trans g2
   cases kd
   · exact ⟨g1, g2⟩
-  · exact ⟨g1, h1'⟩
-  · exact ⟨h0, g2⟩
+  · exact ⟨g1', h1'⟩
+  · exact ⟨h0, g2'⟩
 
 /-- in exact arithmetic, with `0 ≤ z`, `finishWilson` always gets ordered bounds -/
 theorem wfin_ordered_exact (kd : Kind) (n k : ℕ) (hn : 0 < n) (hkn : k ≤ n) {z : ℝ} (hz : 0 ≤ z) :
@@ -644,8 +669,8 @@ theorem wfin_ordered_exact (kd : Kind) (n k : ℕ) (hn : 0 < n) (hkn : k ≤ n) 
   rw [abs_of_nonneg hs] at c d
   cases kd <;> simp only [wLo, wHi, id]
   · exact max_le (le_min (by linarith) (by linarith)) (le_min (by linarith) zero_le_one)
-  · exact max_le (by linarith) zero_le_one
-  · exact le_min (by linarith) zero_le_one
+  · exact min_le_right _ _
+  · exact le_max_right _ _
 
 /-- with a monotone rounding function and `0 ≤ z`, so does it at `RR fl` -/
 theorem wfin_ordered_fl (hfl : ∀ x, |fl x - x| ≤ u * |x|) (hu0 : 0 ≤ u) (hu1 : u ≤ 1)
@@ -664,8 +689,8 @@ theorem wfin_ordered_fl (hfl : ∀ x, |fl x - x| ≤ u * |x|) (hu0 : 0 ≤ u) (h
   have o3 : 0 ≤ fl (flCentre fl n k z + flSpan fl n k z) := fl_nonneg hfl hu1 (by linarith)
   cases kd <;> simp only [wLo, wHi]
   · exact max_le (le_min o1 o2) (le_min o3 zero_le_one)
-  · exact max_le o2 zero_le_one
-  · exact le_min o3 zero_le_one
+  · exact min_le_right _ _
+  · exact le_max_right _ _
 
 /-- `ci_wilson` on its domain, at any `fl`: the pair of clamped bounds if ordered, else
     `InvalidBounds` -/
